@@ -57,7 +57,9 @@ func c09Netns(c *Ctx) {
 	}
 	behaviours := []behaviour{
 		{"tcp-blackhole", "tcp", "error", 0.93, true}, {"udp-blackhole", "udp", "error", 0.93, true},
-		{"tcp-no-arp", "tcp", "error", 0.93, true}, {"udp-no-arp", "udp", "error", 0.93, true}, // ARP takes about 3 s to fail: with T = 0.3 s the deadline comes first
+		// ARP takes about 3 s to fail, with T = 0.3 s the deadline usually comes first - but while the kernel still remembers an earlier
+		// failure for the address a connect is refused at once ("no route to host"): an early error is legitimate here
+		{"tcp-no-arp", "tcp", "error", 0, true}, {"udp-no-arp", "udp", "error", 0, true},
 		{"silence", "broadcast", "error", 0.93, true}, {"prompt", "broadcast", "success", 0, false}, {"reply-0.5T", "broadcast", "success", 0, false},
 		{"reply-0.7T", "broadcast", "success", 0, false}, {"reply-1.3T", "broadcast", "error", 0.93, true}, {"flood-then-valid", "broadcast", "success", 0, false},
 		{"prompt", "udp", "success", 0, false}, {"prompt", "tcp", "success", 0, false}, {"reply-0.7T", "udp", "success", 0, false}, {"tcp-stall", "tcp", "error", 0.93, true},
@@ -158,7 +160,7 @@ func c09Netns(c *Ctx) {
 		k := 3 + r.Pick(2)
 		kinds := []behaviour{}
 		for i := 0; i < k-1; i++ {
-			kinds = append(kinds, []behaviour{{"tcp-blackhole", "tcp", "error", 0.93, true}, {"udp-blackhole", "udp", "error", 0.93, true}, {"silence", "broadcast", "error", 0.93, true}, {"reply-0.5T", "broadcast", "success", 0, false}, {"tcp-no-arp", "tcp", "error", 0.93, true}}[r.Pick(5)])
+			kinds = append(kinds, []behaviour{{"tcp-blackhole", "tcp", "error", 0.93, true}, {"udp-blackhole", "udp", "error", 0.93, true}, {"silence", "broadcast", "error", 0.93, true}, {"reply-0.5T", "broadcast", "success", 0, false}, {"tcp-no-arp", "tcp", "error", 0, true}}[r.Pick(5)])
 		}
 		kinds = append(kinds, []behaviour{{"reply-0.7T", "udp", "success", 0, false}, {"reply-0.7T", "broadcast", "success", 0, false}, {"prompt", "broadcast", "success", 0, false}}[r.Pick(3)])
 		results := make([]c09Result, k)
